@@ -290,6 +290,42 @@ def f8(k, keep, mixed):
     return prog(main, subs)
 
 
+# ---------------------------------------------------------------- F9
+def f9(style, when, nlocals):
+    """a RECURSIVE routine whose local variable is handed out by reference and kept alive across the recursive call:
+    style 'helper' - the local goes by reference to a non-recursive helper that adds to it;
+    style 'self'   - the routine takes a by-reference parameter itself and passes its OWN local down the recursion
+    (every activation must see its own copy afterwards); when: the hand-out happens before / after the recursion"""
+    locs = ["l%d" % i for i in range(nlocals)]
+    st = [["Store", l, ["Add", ["Mul", L("n"), I(7)], I(i + 1)]] for i, l in enumerate(locs)]
+    locsum = I(0)
+    for l in locs:
+        locsum = ["Add", locsum, L(l)]
+    subs = {}
+    if style == "helper":
+        subs["bump"] = {"params": [["w", "ref"], ["j", "val"]], "ret": "none",
+                        "body": ["Seq", ["Store", "w", ["Add", L("w"), ["Add", L("j"), I(100)]]]], "locals": [], "init_locals": False}
+        hand = ["Call", "bump", ["Ref", "t"], L("n")]
+        rec = ["Store", "r", ["Call", "walk", ["Minus", L("n"), I(1)]]]
+        steps = [hand, rec] if when == "before" else [rec, hand]
+        body = ["Seq", ["Store", "t", ["Mul", L("n"), I(10)]]] + st + \
+            [["If", ["Eq", L("n"), I(0)], ["Return", I(1)]]] + steps + \
+            [["Return", ["Add", ["Add", ["Mul", L("r"), I(3)], L("t")], locsum]]]
+        subs["walk"] = {"params": [["n", "val"]], "ret": "u", "body": body, "locals": ["t", "r"] + locs, "init_locals": False}
+        main = ["Seq", ["GPut", ["Bytes", "72"], ["Call", "walk", N]], ["TickS", 1], ["Int", 1]]
+        return prog(main, subs)
+    rec = ["Store", "r", ["Call", "walk", ["Ref", "t"], ["Minus", L("n"), I(1)]]]
+    touch = ["Store", "v", ["Add", L("v"), ["Add", L("n"), I(100)]]]
+    steps = [touch, rec] if when == "before" else [rec, touch]
+    body = ["Seq", ["Store", "t", ["Mul", L("n"), I(10)]]] + st + \
+        [["If", ["Eq", L("n"), I(0)], ["Seq", touch, ["Return", I(1)]]]] + steps + \
+        [["Return", ["Add", ["Add", ["Mul", L("r"), I(3)], L("t")], locsum]]]
+    subs["walk"] = {"params": [["v", "ref"], ["n", "val"]], "ret": "u", "body": body, "locals": ["t", "r"] + locs, "init_locals": False}
+    main = ["Seq", ["Store", "x", I(5)], ["GPut", ["Bytes", "72"], ["Call", "walk", ["Ref", "x"], N]],
+            ["GPut", ["Bytes", "78"], L("x")], ["Int", 1]]
+    return prog(main, subs, {"x": "u"})
+
+
 F5_SITES = ["stmt", "left", "right", "nested_arg", "arg_order", "arg_order3", "bytes_left", "bytes_right", "two_calls",
             "in_cond", "in_loop", "value_top"]
 F4_POS = ["first", "in_if", "in_ifelse", "in_loop", "in_for", "in_cond", "last"]
@@ -328,4 +364,8 @@ def programs(tier="quick"):
         for keep in ("param", "local"):
             for mixed in (False, True):
                 out.append((k, f8(k, keep, mixed), [{"args": [bytes([n]), b"\x00"]} for n in (0, 1, k, k + 1, 2 * k + 1)]))
+    for style in ("helper", "self"):
+        for when in ("before", "after"):
+            for nl in range(0, max_loc + 1):
+                out.append((3 + nl, f9(style, when, nl), _inputs((0, 1, 2, 3))))
     return out
